@@ -402,7 +402,7 @@ pub fn fuzz_campaign(ctx: &Ctx, target: &str, procs: usize, runs: u64, max_len: 
     }
     let bin = root.join("target").join("harness").join("x86_64-unknown-linux-gnu").join("release").join(target);
     let seeds = root.join("corpus").join(target);
-    let results: Vec<(u64, Option<(String, Vec<u8>)>)> = std::thread::scope(|sc| {
+    let results: Vec<(u64, Option<(String, Vec<u8>)>, Option<String>)> = std::thread::scope(|sc| {
         let handles: Vec<_> = (0..procs)
             .map(|i| {
                 let (bin, seeds, root) = (bin.clone(), seeds.clone(), root.clone());
@@ -422,6 +422,8 @@ pub fn fuzz_campaign(ctx: &Ctx, target: &str, procs: usize, runs: u64, max_len: 
                         .arg("-len_control=0")
                         .arg("-print_final_stats=1")
                         .arg("-timeout=60")
+                        .arg("-rss_limit_mb=6000")
+                        .arg("-malloc_limit_mb=4000")
                         .arg(format!("-artifact_prefix={}/", work.join("artifacts").display()))
                         .env("H8VERIF_ROOT", &root)
                         .env("RUST_LIB_BACKTRACE", "0")
@@ -429,6 +431,7 @@ pub fn fuzz_campaign(ctx: &Ctx, target: &str, procs: usize, runs: u64, max_len: 
                     let out = cmd.output();
                     let mut execs = 0u64;
                     let mut crash = None;
+                    let mut inconclusive: Option<String> = None;
                     if let Ok(o) = out {
                         let err = String::from_utf8_lossy(&o.stderr).to_string();
                         for l in err.lines() {
@@ -436,22 +439,30 @@ pub fn fuzz_campaign(ctx: &Ctx, target: &str, procs: usize, runs: u64, max_len: 
                                 execs = n.trim().parse().unwrap_or(0);
                             }
                         }
-                        if !o.status.success() {
+                        // resource limits of the fuzzing engine (memory, per-input time, its own I/O) are not verdicts
+                        let resource = err.contains("out-of-memory") || err.contains("ERROR: libFuzzer: timeout") || err.contains("IO failure on output stream");
+                        let violation_line = err.lines().any(|l| l.contains("PROPERTY VIOLATION:"));
+                        if !o.status.success() && resource && !violation_line {
+                            inconclusive = Some(err.lines().find(|l| l.contains("ERROR")).unwrap_or("resource limit").to_string());
+                        } else if !o.status.success() {
                             let msg = err.lines().find(|l| l.contains("PROPERTY VIOLATION:")).map(|l| l.to_string()).unwrap_or_else(|| err.lines().rev().find(|l| l.contains("ERROR") || l.contains("panicked")).unwrap_or("fuzz target crashed").to_string());
                             let input = std::fs::read_dir(work.join("artifacts")).ok().and_then(|rd| rd.flatten().next()).and_then(|f| std::fs::read(f.path()).ok()).unwrap_or_default();
                             crash = Some((msg, input));
                         }
                     }
                     let _ = std::fs::remove_dir_all(&work);
-                    (execs, crash)
+                    (execs, crash, inconclusive)
                 })
             })
             .collect();
-        handles.into_iter().map(|h| h.join().unwrap_or((0, None))).collect()
+        handles.into_iter().map(|h| h.join().unwrap_or((0, None, None))).collect()
     });
     let mut total = 0;
-    for (execs, crash) in results {
+    for (execs, crash, inconclusive) in results {
         total += execs;
+        if let Some(why) = inconclusive {
+            stats.notes.push(format!("fuzz campaign {}: one process stopped at a resource limit of the fuzzing engine (inconclusive for its remainder, not a verdict): {}", target, why.chars().take(160).collect::<String>()));
+        }
         if let Some((msg, input)) = crash {
             stats.fail(Failure {
                 signature: format!("fuzz {} | {}", target, fail_field(&msg.replace("PROPERTY VIOLATION:", "").replace(|c: char| c.is_ascii_digit(), ""))),
